@@ -523,3 +523,281 @@ Proof.
     split; [cbn; discriminate|].
     repeat split; vm_compute; reflexivity.
 Qed.
+
+(* ===================================================================================== *)
+(* SemanticSddBuilder (src/builder/sdd/semantic.rs).  Model: Model/SddSemBuilder.v -- the generic
+   SddBuilder trait methods (unique_or / unique_bdd / the four apply cases / and / condition /
+   exists / compile_cnf, shared with CompressionSddBuilder through the trait) with the hooks of
+   semantic.rs: sdd_eq / is_true / is_false by hash, canonicalize = unique_or, no compression,
+   get_or_insert_bdd / _sdd answering from the node stored under the hash or -- complemented --
+   under the negated hash, the apply cache keyed by hash(a) * hash(b); ite / iff / xor (and
+   compose) are todo!() = Panic unless Ite::new resolves the triple to a constant.
+   Proofs: Proofs/SddSemBuilder*.v.  Reading guide.
+   * [shash P w p : N] is SddPtr::cached_semantic_hash in Z/P (C11_semb_hash_as_coded: it is what
+     the recursion as coded returns, for every pointer); [app_key P (shash P w) a b] the apply-cache key.
+   * [swf t p] is the SEMANTIC builder invariant: decision nodes sit at internal vtree nodes,
+     their primes form a partition and depend only on the variables of the left sub-vtree, their
+     subs only on those of the right one.  It contains C03's structural invariant
+     (C11_semb_under_swf) but, unlike it, says nothing about where primes and subs are
+     normalised: a hash-identified store answers a request with the FIRST node created for that
+     function, which may sit at a higher vtree node (e.g. the untrimmed node that condition() builds),
+     so results of the semantic builder do NOT satisfy [under] in general -- even without any collision.
+   * [sem_inj P w D K]: D is closed under negation, contains PtrFalse, and the hash is injective on
+     D up to denotation; K contains (True, True), (False, False) and the product key is injective
+     on K up to the denoted conjunction.  [Forall (evok D K) log]: every pointer whose hash the
+     run compared or requested is in D and every pair that keyed the apply cache is in K ([log] = the ghost
+     output of the model run).  The hypothesis on K is genuinely additional: hash(a) * hash(b) is
+     not the hash of a /\ b when a and b share variables, and app_cache_get answers PtrFalse /
+     PtrTrue whenever the product is 0 / 1.
+   * The conditional theorems are about runs that RETURN ([= Ok ..]): absence of panics (e.g.
+     b.low() in and_cartesian) and termination within a given fuel are not proved
+     (C11_semb_ops_total_statement); the harness explores them. *)
+From Coq Require Import Permutation.
+From RsddV Require Model.Compile.
+From RsddV Require Import Model.SddSemBuilder Proofs.SddVtree Proofs.SddSemBuilderBase Proofs.SddSemBuilderStore
+  Proofs.SddSemBuilderHash Proofs.SddSemBuilder Proofs.SddSemBuilderCheck Proofs.SddSemBuilderUnder
+  Proofs.SddSemBuilderCoded.
+
+(* the model's hash value is what SddPtr::cached_semantic_hash as coded (Model/SddSemHash.v, per-node
+   caches, checked u128 arithmetic) returns -- EVERY pointer, no invariant *)
+Theorem C11_semb_hash_as_coded : forall (m : mode) (P : N) (w : wmap) (p : sdd) (s : shcache),
+  In P exported_primes -> weights_ok P w = true -> sdd_vars_in p w -> sdd_width_ok P p ->
+  hcache_sound P w s ->
+  exists s', sdd_cached_hash m P w p s = Some (shash P w p, s') /\ hcache_sound P w s' /\
+             (forall k h, shc_get k s = Some h -> shc_get k s' = Some h).
+Proof.
+  intros m P w p s HP HW V W CS. destruct (exported_ok_range P w HP HW) as [OK WR].
+  apply (sdd_cached_hash_coded m P OK w WR p V W s CS).
+Qed.
+Print Assumptions C11_semb_hash_as_coded.
+
+(* hash (neg p) = negate (hash p), negate is an involution on residues: EVERY pointer *)
+Theorem C11_semb_hash_neg : forall (P : N) (w : wmap) (p : sdd),
+  In P exported_primes -> weights_ok P w = true ->
+  shash P w (sneg p) = negP P (shash P w p) /\ shash P w p < P /\ negP P (negP P (shash P w p)) = shash P w p.
+Proof.
+  intros P w p HP HW. destruct (exported_ok_range P w HP HW) as [OK WR].
+  split; [apply (shash_sneg P OK w WR)|]. split; [apply (shash_lt P OK w WR)|].
+  apply (negP_invol P OK). apply (shash_lt P OK w WR).
+Qed.
+Print Assumptions C11_semb_hash_neg.
+
+(* C03's invariant is contained in the semantic one *)
+Theorem C11_semb_under_swf : forall (t : vtree) (p : sdd), under t 0 p -> swf t p.
+Proof. intros t p H. apply (under_swf t t 0 p (occurs_refl t 0) H). Qed.
+Print Assumptions C11_semb_under_swf.
+
+(* ---- UNCONDITIONAL half: no hypothesis about collisions ---- *)
+(* on well-formed pointers the builder's hash is the defining sum over the models *)
+Theorem C11_semb_hash_is_sum : forall (P : N) (w : wmap) (t : vtree) (p : sdd) (vars : list var) (x : asg),
+  In P exported_primes -> weights_ok P w = true ->
+  NoDup (vleaves t) -> swf t p -> NoDup vars -> incl (vleaves t) vars ->
+  shash P w p = fhash P w vars (sden p) x.
+Proof.
+  intros P w t p vars x HP HW ND Wp NDV INC. destruct (exported_ok_range P w HP HW) as [OK WR].
+  apply (shash_is_sum t ND P OK w WR vars NDV INC x p Wp).
+Qed.
+Print Assumptions C11_semb_hash_is_sum.
+
+(* SemanticSddBuilder::sdd_eq NEVER judges two equal functions different, and finds a negated
+   function under negate(): equal functions have equal hashes *)
+Theorem C11_semb_eq_never_splits : forall (P : N) (w : wmap) (t : vtree) (a b : sdd) (st : sst),
+  In P exported_primes -> weights_ok P w = true -> NoDup (vleaves t) -> swf t a -> swf t b ->
+  ((forall x, sden a x = sden b x) -> eqS (shash P w) a b st = Ok (true, st, [EPtr a; EPtr b])) /\
+  ((forall x, sden a x = negb (sden b x)) -> shash P w a = negP P (shash P w b)).
+Proof.
+  intros P w t a b st HP HW ND Wa Wb. destruct (exported_ok_range P w HP HW) as [OK WR]. split.
+  - apply (eqS_never_splits t ND P OK w WR a b st Wa Wb).
+  - apply (shash_denotational_neg t ND P OK w WR a b Wa Wb).
+Qed.
+Print Assumptions C11_semb_eq_never_splits.
+
+(* get_or_insert_bdd / get_or_insert_sdd never store a second node for a function that is stored
+   already, nor for the negation of one: the request is answered from the tables, unchanged *)
+Theorem C11_semb_store_never_splits : forall (P : N) (w : wmap) (t : vtree) (n : sdd) (st : sst) (h : N) (p : sdd),
+  In P exported_primes -> weights_ok P w = true -> NoDup (vleaves t) ->
+  store_wf t P w st -> swf t n -> tbl_get (s_tbl st) h = Some p ->
+  ((forall a, sden p a = sden n a) \/ (forall a, sden p a = negb (sden n a))) ->
+  exists r, get_or_insert P (shash P w) n st = Ok (r, st, [EReq n]).
+Proof.
+  intros P w t n st h p HP HW ND Hst Wn Hg E. destruct (exported_ok_range P w HP HW) as [OK WR].
+  apply (get_or_insert_never_splits t ND P OK w WR n st h p Hst Wn Hg E).
+Qed.
+Print Assumptions C11_semb_store_never_splits.
+
+(* ---- CONDITIONAL half: IF the hash is injective on the requested nodes ---- *)
+(* (a) the node store: lookup by hash, then by negated hash (complemented pointer), else insert --
+   the returned pointer denotes the requested node and the store invariant is kept *)
+Theorem C11_semb_get_or_insert_correct : forall (P : N) (w : wmap) (t : vtree) (D : sdd -> Prop) (K : sdd -> sdd -> Prop)
+  (n : sdd) (st : sst) r st' log,
+  In P exported_primes -> weights_ok P w = true -> sem_inj P w D K ->
+  inv t P w D K st -> swf t n ->
+  get_or_insert P (shash P w) n st = Ok (r, st', log) -> Forall (evok D K) log ->
+  inv t P w D K st' /\ swf t r /\ forall a, sden r a = sden n a.
+Proof.
+  intros P w t D K n st r st' log HP HW HI. destruct (exported_ok_range P w HP HW) as [OK WR].
+  apply (sem_get_or_insert_correct t P OK w WR D K HI).
+Qed.
+Print Assumptions C11_semb_get_or_insert_correct.
+
+(* (b) and (all four apply cases, the apply cache, unique_or / unique_bdd), or; every fuel *)
+Theorem C11_semb_and_correct_partial : forall (P : N) (w : wmap) (t : vtree) (D : sdd -> Prop) (K : sdd -> sdd -> Prop)
+  (fuel : nat) (a b : sdd) (st : sst),
+  In P exported_primes -> weights_ok P w = true -> sem_inj P w D K ->
+  inv t P w D K st -> swf t a -> swf t b ->
+  (forall r st' log, and_m t P (shash P w) fuel a b st = Ok (r, st', log) -> Forall (evok D K) log ->
+     inv t P w D K st' /\ swf t r /\ forall x, sden r x = sden a x && sden b x) /\
+  (forall r st' log, or_m t P (shash P w) fuel a b st = Ok (r, st', log) -> Forall (evok D K) log ->
+     inv t P w D K st' /\ swf t r /\ forall x, sden r x = sden a x || sden b x).
+Proof.
+  intros P w t D K fuel a b st HP HW HI Hinv Wa Wb. destruct (exported_ok_range P w HP HW) as [OK WR]. split.
+  - intros r st' log. apply (sem_and_correct t P OK w WR D K HI fuel a b st r st' log Hinv Wa Wb).
+  - intros r st' log. apply (sem_or_correct t P OK w WR D K HI fuel a b st r st' log Hinv Wa Wb).
+Qed.
+Print Assumptions C11_semb_and_correct_partial.
+
+(* condition, exists, compile_cnf (any clause order after the code's sort_by) *)
+Theorem C11_semb_operations_correct_partial : forall (P : N) (w : wmap) (t : vtree) (D : sdd -> Prop) (K : sdd -> sdd -> Prop)
+  (fuel : nat) (f : sdd) (st : sst),
+  In P exported_primes -> weights_ok P w = true -> sem_inj P w D K -> inv t P w D K st -> swf t f ->
+  (forall v b r st' log, condition_m P (shash P w) f v b st = Ok (r, st', log) -> Forall (evok D K) log ->
+     inv t P w D K st' /\ swf t r /\ forall x, sden r x = sden f (upd x v b)) /\
+  (forall v r st' log, exists_m t P (shash P w) fuel f v st = Ok (r, st', log) -> Forall (evok D K) log ->
+     inv t P w D K st' /\ swf t r /\ forall x, sden r x = sden f (upd x v true) || sden f (upd x v false)) /\
+  (forall (cnf sorted : Compile.cnf) r st' log, Permutation sorted cnf ->
+     Forall (Forall (fun l : Compile.literal => In (fst l) (vleaves t))) cnf ->
+     compile_cnf_m t P (shash P w) fuel cnf sorted st = Ok (r, st', log) -> Forall (evok D K) log ->
+     inv t P w D K st' /\ swf t r /\ forall a, sden r a = Compile.cnf_eval cnf a).
+Proof.
+  intros P w t D K fuel f st HP HW HI Hinv Wf. destruct (exported_ok_range P w HP HW) as [OK WR].
+  split; [|split].
+  - intros v b r st' log. apply (sem_condition_correct t P OK w WR D K HI f v b st r st' log Hinv Wf).
+  - intros v r st' log. apply (sem_exists_correct t P OK w WR D K HI fuel f v st r st' log Hinv Wf).
+  - intros cnf sorted r st' log Pm Hv. apply (sem_compile_cnf_correct t P OK w WR D K HI fuel cnf sorted st r st' log Hinv Pm Hv).
+Qed.
+Print Assumptions C11_semb_operations_correct_partial.
+
+(* (c) operation programs on a fresh builder: true / false / var / negate / and / or / condition /
+   exists / compile_cnf (and ite / iff / xor / compose on the triples that do not reach todo!()):
+   IF the run returns and the hash is injective on what it requested, every pool entry satisfies
+   the invariant and denotes the value of the specification program (C03's [spec_run]) *)
+Theorem C11_semb_ops_correct_partial : forall (P : N) (w : wmap) (t : vtree) (D : sdd -> Prop) (K : sdd -> sdd -> Prop)
+  (fuel : nat) (ops : list sop) pool st log,
+  In P exported_primes -> weights_ok P w = true -> sem_inj P w D K -> Forall (op_wf t) ops ->
+  run_prog_sem t P w fuel ops = Ok (pool, st, log) -> Forall (evok D K) log ->
+  Forall2 (denotes (swf t)) pool (spec_run [] ops) /\ inv t P w D K st.
+Proof.
+  intros P w t D K fuel ops pool st log HP HW HI. destruct (exported_ok_range P w HP HW) as [OK WR].
+  apply (sem_run_correct t P OK w WR D K HI).
+Qed.
+Print Assumptions C11_semb_ops_correct_partial.
+
+(* what is NOT proved: that under the injectivity hypothesis (here: on ALL well-formed pointers and
+   pairs) a run returns at all -- no panic (b.low() on a non-BinarySDD, node[0] on an empty
+   vector), enough fuel.  Explored by the harness, never observed to fail. *)
+Definition C11_semb_ops_total_statement : Prop :=
+  forall (P : N) (w : wmap) (t : vtree) (ops : list sop),
+  In P exported_primes -> weights_ok P w = true -> NoDup (vleaves t) ->
+  (forall v, In v (vleaves t) -> (N.to_nat v < length w)%nat) ->
+  sem_inj P w (swf t) (fun a b => swf t a /\ swf t b) -> Forall (op_wf t) ops ->
+  Forall (fun o => match o with OXor _ _ | OIff _ _ | OIte _ _ _ | OCompose _ _ _ => False | _ => True end) ops ->
+  exists fuel pool st log, run_prog_sem t P w fuel ops = Ok (pool, st, log) /\
+    Forall2 (denotes (swf t)) pool (spec_run [] ops).
+
+(* sdd_eq decides semantic equality EXACTLY on results: eq(pool[i], pool[j]) answers whether the
+   specification functions are equal -- "true => equal" by injectivity, "equal => true" unconditionally *)
+Theorem C11_semb_eq_exact : forall (P : N) (w : wmap) (t : vtree) (D : sdd -> Prop) (K : sdd -> sdd -> Prop)
+  (fuel : nat) (ops : list sop) pool st log (i j : nat) r st' log',
+  In P exported_primes -> weights_ok P w = true -> sem_inj P w D K -> NoDup (vleaves t) -> Forall (op_wf t) ops ->
+  run_prog_sem t P w fuel ops = Ok (pool, st, log) -> Forall (evok D K) log ->
+  (i < length pool)%nat -> (j < length pool)%nat ->
+  pool_eq (shash P w) pool i j st = Ok (r, st', log') -> Forall (evok D K) log' ->
+  (r = true <-> forall x, fget (spec_run [] ops) i x = fget (spec_run [] ops) j x).
+Proof.
+  intros P w t D K fuel ops pool st log i j r st' log' HP HW HI. destruct (exported_ok_range P w HP HW) as [OK WR].
+  apply (sem_pool_eq_exact t P OK w WR D K HI).
+Qed.
+Print Assumptions C11_semb_eq_exact.
+
+(* a cached apply result is, up to denotation, what the computation gives with an empty apply cache *)
+Theorem C11_semb_cache_transparent : forall (P : N) (w : wmap) (t : vtree) (D : sdd -> Prop) (K : sdd -> sdd -> Prop)
+  (fuel fuel' : nat) (a b : sdd) (st : sst) r1 s1 l1 r2 s2 l2,
+  In P exported_primes -> weights_ok P w = true -> sem_inj P w D K ->
+  inv t P w D K st -> swf t a -> swf t b ->
+  and_m t P (shash P w) fuel a b st = Ok (r1, s1, l1) -> Forall (evok D K) l1 ->
+  and_m t P (shash P w) fuel' a b (mkSst (s_tbl st) []) = Ok (r2, s2, l2) -> Forall (evok D K) l2 ->
+  forall x, sden r1 x = sden r2 x.
+Proof.
+  intros P w t D K fuel fuel' a b st r1 s1 l1 r2 s2 l2 HP HW HI. destruct (exported_ok_range P w HP HW) as [OK WR].
+  apply (sem_cache_transparent t P OK w WR D K HI).
+Qed.
+Print Assumptions C11_semb_cache_transparent.
+
+(* every pool entry hashes to the defining sum of its specification function (what the harness
+   compares: the sem= field and the oracle's defining sum) *)
+Theorem C11_semb_pool_hashed : forall (P : N) (w : wmap) (t : vtree) (D : sdd -> Prop) (K : sdd -> sdd -> Prop)
+  (fuel : nat) (ops : list sop) pool st log (vars : list var) (x : asg),
+  In P exported_primes -> weights_ok P w = true -> sem_inj P w D K ->
+  NoDup (vleaves t) -> NoDup vars -> incl (vleaves t) vars -> Forall (op_wf t) ops ->
+  run_prog_sem t P w fuel ops = Ok (pool, st, log) -> Forall (evok D K) log ->
+  Forall2 (fun p f => shash P w p = fhash P w vars f x) pool (spec_run [] ops).
+Proof.
+  intros P w t D K fuel ops pool st log vars x HP HW HI. destruct (exported_ok_range P w HP HW) as [OK WR].
+  apply (sem_pool_hashed t P OK w WR D K HI).
+Qed.
+Print Assumptions C11_semb_pool_hashed.
+
+(* non-vacuity: vtree ((x0 x1) x2) in the 64-bit field with admissible weights; the program builds
+   x0 <-> x2 (a BinarySDD at the root, stored regular), then x0 xor x2 as
+   (!x0 /\ x1 /\ x2) \/ (!x0 /\ !x1 /\ x2) \/ (x0 /\ !x2): the last disjunction requests the
+   three-element decision node {(!x0 /\ x1, x2), (!x0 /\ !x1, x2), (x0, !x2)}, whose hash is not in the
+   tables but whose NEGATED hash is that of the stored node: complement hit, pool[15] = !pool[8].
+   D / K = the pointers / pairs of the run's ghost log ([dset_of] / [kset_of]: 28 pointers with
+   negations and constants, 19 pairs); every hypothesis of the conditional theorems holds, injectivity checked pair by pair
+   on hashes and truth tables (Proofs/SddSemBuilderCheck.v, by vm_compute) *)
+Definition semb_P : N := prime_U64_LARGEST.
+Definition semb_w : wmap := [(semb_P - 12345678901234567 + 1, 12345678901234567);
+  (semb_P - 98765432109876543 + 1, 98765432109876543); (semb_P - 5 + 1, 5)].
+Definition semb_t : vtree := VNode (VNode (VLeaf 0) (VLeaf 1)) (VLeaf 2).
+Definition semb_ops : list sop :=
+  [SddOps.OVar 0 true; SddOps.OVar 2 true; SddOps.OVar 1 true; SddOps.ONeg 0; SddOps.ONeg 1; SddOps.ONeg 2;
+   SddOps.OAnd 0 1; SddOps.OAnd 3 4; SddOps.OOr 6 7;
+   SddOps.OAnd 3 2; SddOps.OAnd 9 1; SddOps.OAnd 3 5; SddOps.OAnd 11 1; SddOps.OAnd 0 4;
+   SddOps.OOr 10 12; SddOps.OOr 14 13].
+Definition semb_req : sdd :=
+  SOr false 3 [(SBdd true 0 1 (SVar 1 false) ST, SVar 2 true); (SBdd true 0 1 (SVar 1 true) ST, SVar 2 true);
+               (SVar 0 true, SVar 2 false)].
+Example C11_semb_nonvacuous :
+  In semb_P exported_primes /\ weights_ok semb_P semb_w = true /\ NoDup (vleaves semb_t) /\ Forall (op_wf semb_t) semb_ops /\
+  exists pool st log, run_prog_sem semb_t semb_P semb_w 10 semb_ops = Ok (pool, st, log) /\
+    let D := fun p => In p (dset_of log) in
+    let K := fun a b => In (a, b) (kset_of log) in
+    sem_inj semb_P semb_w D K /\ Forall (evok D K) log /\
+    length (dset_of log) = 28%nat /\ length (kset_of log) = 19%nat /\
+    length pool = 16%nat /\ length (s_tbl st) = 9%nat /\
+    nth 8 pool SF = SBdd false 0 3 (SVar 2 false) (SVar 2 true) /\ nth 15 pool SF = sneg (nth 8 pool SF) /\
+    In (EReq semb_req) log /\ tbl_get (s_tbl st) (shash semb_P semb_w semb_req) = None /\
+    tbl_get (s_tbl st) (negP semb_P (shash semb_P semb_w semb_req)) = Some (nth 8 pool SF) /\
+    (forall x, sden semb_req x = xorb (x 0) (x 2)).
+Proof.
+  split; [vm_compute; tauto|]. split; [vm_compute; reflexivity|].
+  split; [simpl; repeat (apply NoDup_cons; [simpl; intuition discriminate|]); apply NoDup_nil|].
+  split; [repeat (apply Forall_cons; [simpl; auto 10|]); apply Forall_nil|].
+  eexists. eexists. eexists. split; [vm_compute; reflexivity|]. cbv zeta.
+  split; [apply (check_sound semb_P semb_w [0; 1; 2]); vm_compute; reflexivity|].
+  split; [apply logcheck_sound; vm_compute; reflexivity|].
+  split; [vm_compute; reflexivity|]. split; [vm_compute; reflexivity|].
+  split; [vm_compute; reflexivity|]. split; [vm_compute; reflexivity|].
+  split; [vm_compute; reflexivity|]. split; [vm_compute; reflexivity|].
+  split; [apply ev_mem_sound; vm_compute; reflexivity|].
+  split; [vm_compute; reflexivity|]. split; [vm_compute; reflexivity|].
+  intros x. cbn. destruct (x 0), (x 1), (x 2); reflexivity.
+Qed.
+
+(* the model's total weight lookup never uses its default on builder pointers: the labels of a
+   well-formed pointer are leaves of the vtree, which the map of SemanticSddBuilder::new covers --
+   so C11_semb_hash_as_coded applies to every result of a (collision-free) run *)
+Theorem C11_semb_swf_vars_in : forall (t : vtree) (p : sdd) (w : wmap),
+  swf t p -> (forall v, In v (vleaves t) -> (N.to_nat v < length w)%nat) -> sdd_vars_in p w.
+Proof. exact swf_vars_in. Qed.
+Print Assumptions C11_semb_swf_vars_in.
